@@ -58,7 +58,8 @@ def _pg_job(a):
     meshes_pg = [np.einsum("lk,ijk->ijl", T, s["mesh"]) * pe for s in sc.surfs]
     # the code decides left/right half from the option mesh; a half mesh rotated by a large sideslip angle can
     # change that verdict in the re-built model, so those cases go through the interpreter (side passed explicitly)
-    use_solver = (not rot) and not (any(s["sym"] for s in sc.surfs) and abs(beta) > 20.0)
+    side_kept = all((not s["sym"]) or laws._side(mp) == laws._side(s["mesh"]) for s, mp in zip(sc.surfs, [np.einsum("lk,ijk->ijl", T, s["mesh"]) * pe for s in sc.surfs]))
+    use_solver = (not rot) and side_kept
     if use_solver:
         s2 = sc.clone()
         s2.compressible = False
